@@ -327,6 +327,9 @@ def native_replay(ob, cfile, choices, work, failures=()):
     if rc == -9 and any('unwinding assertion' in (f.get('description') or '') for f in failures):
         # the counterexample is a loop that exceeds every bound the unchanged tree needs: natively it simply does not return
         return True, 'native run of the recorded inputs did not terminate within 20 s (non-termination reproduced) ' + out[-500:]
+    if rc in (-11, -7):
+        # the recorded schedule makes the real code fault natively (wild / NULL dereference): that is the violation, observed outside CBMC
+        return True, 'native run of the recorded schedule died with signal %d (memory fault reproduced) %s' % (-rc, out[-500:])
     return (rc == 42), 'rc=%d %s %s' % (rc, out[-1500:], err[-300:])
 
 
